@@ -45,9 +45,12 @@ theorem chan_ctx_costs_nothing {st st' : State} (hs : step st (.arm (.recv chCtx
   rcases step_cases hs with ⟨v, h, _⟩ | ⟨v, h, _⟩ | ⟨h, _⟩ | ⟨c, h, _⟩ | ⟨h, _⟩ | ⟨v, rest, h, _⟩ | ⟨h, _⟩ | ⟨_, _, _, h⟩
   all_goals first | exact h | (simp [chCtx, chData] at h)
 
-/-- **Next returns once a value is buffered, the channel is closed or its context expired**: an arm
-that makes it return is enabled, and the condition persists until it does. First conjunct: `Next` is
-that one `select` and nothing else (regenerated control skeleton). -/
+/-- **Next returns once a value is buffered, the channel is closed or its context expired** — proved as:
+in any state (reachable or not) in which `Next` is pending and one of the three holds, (1) `Next` is that
+one `select` and nothing else (regenerated control skeleton); (2) an arm of the `select` is enabled whose
+step makes the call return (`parked = false` afterwards); (3) stability: after any label of the LTS the
+call has returned or one of the three still holds. "Returns" then needs the scheduler to run an arm that
+stays enabled (weak fairness, trusted — not proved). No measure is needed: every arm returns. -/
 theorem chan_next_never_stuck {st : State} (hp : st.parked = true)
     (hc : st.buf ≠ [] ∨ st.closed = true ∨ st.rctx = true) :
     Gen.Skeleton.chanNext = Model.Skeleton.chanNext ∧
